@@ -434,3 +434,50 @@ func lemmaTypedGettersAgreeOnFound(st *SlimTrie, key string) (bool, bool, bool, 
 //@   ensures c.nodeCnt == old(c.nodeCnt) + 1
 //@   ensures !c.withLeaves ==> len(c.leafIndexes) == old(len(c.leafIndexes)) && len(c.leaves) == old(len(c.leaves)) && c.leafCnt == old(c.leafCnt)
 //@   ensures c.withLeaves ==> len(c.leafIndexes) == old(len(c.leafIndexes)) + 1 && c.leafCnt == old(c.leafCnt) + 1
+
+//@ func (*SlimTrie).RangeGet
+//@   property C02 C12
+//@   assume-dep wrapper over searchID/getLeaf (bounded-checked); used only as a callee contract of SlimIndex
+
+// ---------------------------------------------------------------------------
+// loader (C05 C07 C20): control-flow and frame contract of Unmarshal.
+// Claimed: every return leaves st.inner pointing to an object allocated in THIS call (no residue of the previous
+// object, in particular on every error path), the encoder is untouched, and nothing but st.inner/st.vars/st.levels
+// and memory allocated in this call is written (in particular not buf). The content of the decoded message is
+// dependency behaviour (assumed contracts of pbcmpl/proto) and is bounded-checked.
+
+//@ func (*SlimTrie).init
+//@   property C05 C07
+//@   assume-dep helper (initVars/initLevels); writes st.vars and st.levels only (frame decided by framecheck)
+//@   modifies st.vars, st.levels
+//@   allocates
+
+//@ func before000512InnerPrefixTobitstr
+//@   property C06
+//@   assume-dep legacy conversion; rewrites st.inner.InnerPrefixes.Bytes in place, memory decoded in this call (frame decided by framecheck; behaviour bounded-checked on the archived streams)
+//@   allocates
+
+//@ func before000512FixLeafSize
+//@   property C06
+//@   assume-dep legacy conversion of the leaf array header (frame decided by framecheck; behaviour bounded-checked)
+//@   allocates
+
+//@ func before000510
+//@   property C06
+//@   assume-dep legacy three-array conversion; replaces st.inner, st.vars, st.levels (frame decided by framecheck; behaviour bounded-checked)
+//@   modifies st.inner, st.vars, st.levels
+//@   allocates
+//@   ensures fresh(st.inner)
+
+//@ func (*SlimTrie).Unmarshal
+//@   property C05 C07 C20
+//@   opt kinds=post,frame
+//@   modifies st.inner, st.vars, st.levels
+//@   ensures fresh(st.inner)
+//@   ensures st.encoder == old(st.encoder)
+
+//@ func (*SlimTrie).Reset
+//@   property C05
+//@   modifies st.inner, st.vars, st.levels
+//@   ensures fresh(st.inner) && st.vars == nil && len(st.levels) == 1
+//@   ensures st.inner.NodeTypeBM == nil && st.inner.Leaves == nil && st.inner.LeafPrefixes == nil && st.inner.InnerPrefixes == nil
